@@ -119,6 +119,20 @@ def run(ctx):
     import analyzer_hist
     analyzer_hist.check(ctx, "C05", broken)
     if broken and not ctx.findings:
+        import crystals
+        drng = np.random.default_rng(ctx.seed + 50505)
+        nd = 0
+        for n, a1, a2, meta in S.directed_crystals(ctx, S.broken_groups(broken)[:6], drng):
+            try:
+                res, _ = S.check_conventional(a2, n)
+            except Exception as e:  # noqa
+                res = ["exception %s: %s" % (type(e).__name__, str(e)[:200])]
+            ctx.count("directed_conventional_checks")
+            if res and nd < 3:
+                nd += 1
+                ctx.finding("conv:%d:%s" % (n, res[0][:40]), "group %d (directed, letter %s): %s" % (n, meta["letter"], res[0]),
+                            {"kind": "failing-input", "case": {"group": n, "complaints": res, "atoms": crystals.atoms_to_json(a2), "presentation": meta}})
+    if broken and not ctx.findings:
         ctx.finding("unproved", "proof/correspondence broken, no failing crystal found", {"kind": "broken-obligation", "broken": broken}, found_input=False)
     ctx.coverage["broken"] = [{"what": k, "info": i} for k, i in broken]
     ctx.coverage["correspondence_mismatches"] = len(mism)
